@@ -44,7 +44,9 @@ def scenario(idx, classes, edges, statements, methods, defs):
     for m, vp in methods:
         o.append("declare_method(int, m%d, (%s));" % (m, ", ".join("virtual_<K%d&>" % v for v in vp)))
     for m, d, vp in defs:
-        o.append("define_method(int, m%d, (%s)) { return %d; }" % (m, ", ".join("K%d& a%d" % (v, i) for i, v in enumerate(vp)), d))
+        # a definition returns its number; when asked to, it forwards the call to next (macro front end)
+        o.append("define_method(int, m%d, (%s)) { if (g_via_next) { g_via_next = false; return next(%s); } return %d; }" %
+                 (m, ", ".join("K%d& a%d" % (v, i) for i, v in enumerate(vp)), ", ".join("a%d" % i for i in range(len(vp))), d))
     o.append("void run() {")
     r = 0
     for st in statements:
@@ -73,6 +75,15 @@ def scenario(idx, classes, edges, statements, methods, defs):
                      (m, args, str(list(t)).replace(" ", "")))
         o.append('      std::printf("{\\"e\\":\\"table\\",\\"p\\":0,\\"m\\":%d,\\"shape\\":\\"%s\\",\\"rows\\":[%%s]}\\n", rows.c_str()); }' %
                  (idx * 100 + m, "V" * len(vp)))
+    # what next refers to inside every definition: call the method with objects of exactly the definition's
+    # classes (the definition itself is selected) and let it forward to next
+    for m, vp in methods:
+        mdefs = [(d, dvp) for mm, d, dvp in defs if mm == m]
+        o.append('    { std::string rows;')
+        for d, dvp in mdefs:
+            args = ", ".join("static_cast<K%d&>(o%d)" % (v, x) for v, x in zip(vp, dvp))
+            o.append('      { g_via_next = true; int o = call([&] { return m%d(%s); }); g_via_next = false; rows += (rows.empty() ? "" : ",") + std::string("[%d,") + std::to_string(o) + "," + std::to_string(o) + "]"; }' % (m, args, d))
+        o.append('      std::printf("{\\"e\\":\\"next\\",\\"p\\":0,\\"m\\":%d,\\"rows\\":[%%s]}\\n", rows.c_str()); }' % (idx * 100 + m))
     o.append("}")
     o.append("} // namespace")
     return "\n".join(o)
@@ -80,6 +91,7 @@ def scenario(idx, classes, edges, statements, methods, defs):
 
 COMMON = r'''
 #include <yorel/yomm2/keywords.hpp>
+static bool g_via_next = false;
 template<class F> static int call(F f) {
     try { return f(); }
     catch (const yorel::yomm2::resolution_error& e) { return e.status == yorel::yomm2::resolution_error::no_definition ? -1 : -2; }
